@@ -74,6 +74,13 @@ theorem ErrStep.store (st : St) (g : Bool) : ErrStep st (st.store g) := by
     · exact (ErrStep.getFloatCheck st).trans (.of_eq rfl rfl)
   · exact .of_eq rfl rfl
 
+/-- the bookkeeping statements touch none of `state`, `err`, `n`, the stack, the covariance storage -/
+theorem book_same (st : St) (b : Book) :
+    (st.book b).err = st.err ∧ (st.book b).n = st.n ∧ (st.book b).state = st.state ∧ (st.book b).stack = st.stack ∧
+    (st.book b).iterI = st.iterI ∧ (st.book b).iterE = st.iterE ∧ (st.book b).covSize = st.covSize ∧
+    (st.book b).writes = st.writes ∧ (st.book b).uninitStore = st.uninitStore ∧ (st.book b).uninitCovEnd = st.uninitCovEnd := by
+  cases b <;> simp only [St.book] <;> (try split) <;> simp
+
 theorem attrLoop_errStep (names : List (String × AttrKind)) (ue : Err) :
     ∀ (as : List (String × String)) (st : St), ErrStep st (attrLoop names ue as st).1 := by
   intro as
@@ -140,6 +147,7 @@ theorem execOp_errStep (op : Op) (as : List (String × String)) (st : St) : ErrS
     · exact .error _ _
   | error e => exact .error _ _
   | data => exact .refl _
+  | book b => exact .of_eq (book_same st b).1 (book_same st b).2.1
 
 theorem execOps_errStep (ops : List Op) (as : List (String × String)) :
     ∀ st : St, ErrStep st (execOps ops as st) := by
@@ -368,6 +376,7 @@ theorem execOp_coupled (op : Op) (as : List (String × String)) (st : St) (hok :
     · exact hc.error _
   | error e => exact hc.error _
   | data => exact hc
+  | book b => exact hc.of_eq (book_same st b).1 (book_same st b).2.2.1
 
 theorem execOps_coupled (ops : List Op) (as : List (String × String)) (hok : ops.all opOk = true) :
     ∀ st : St, Coupled st → Coupled (execOps ops as st) := by
